@@ -1,5 +1,8 @@
-(* C12 no-overtake: every scheduler action is a [pp] step (phase 1, then phase 2) with respect
-   to every lock l, on runs without asynkit.eager() starts.  Same architecture as
+(* C12 no-overtake: every scheduler action is a [pp3] step with respect to every lock l, on runs
+   without asynkit.eager() starts: phase 1 then phase 2, preceded - only in a step of a task that
+   was suspended in PriorityLock.acquire() - by a phase 0 that re-keys ([rek]: the `finally` of
+   acquire() calling owning.propagate_priority, repair of F16), after which phase 1 carries the
+   ownership clauses [otr] for that task.  Same architecture as
    LockProofs.v / WaitProofs.v: library calls -> frames -> resume_stack -> exec (induction on
    the coro tree) -> finish_step -> step_task -> callbacks -> actions; the C13 invariant [Inv]
    of every intermediate state is taken from the *_ext lemmas of LockLib.v / LockProofs.v. *)
@@ -11,7 +14,7 @@ From Asynkit Require Import Base.Prelude Queue.PQ Queue.Order Queue.PQProofs Que
 Import RecordSetNotations.
 Open Scope nat_scope.
 
-Lemma nov_benign l s s' r : Inv s -> benign s s' -> nov l s s' r.
+Lemma nov_benign l t s s' r : Inv s -> benign s s' -> nov l t s s' r.
 Proof. intros I B. apply nov_both. now apply both_benign. Qed.
 
 Lemma Inv_bound s : Inv s -> forall l1 g, In g (objs s l1) -> g < nf s.
@@ -19,22 +22,22 @@ Proof. intros I l1 g H. apply (iD0 I). now exists l1. Qed.
 
 (* ------------------------------------------------------------ acquire / release *)
 Lemma acquire_start_nov l s t l0 :
-  Inv s -> nov l s (fst (acquire_start s t l0)) (snd (acquire_start s t l0)).
+  Inv s -> nov l t s (fst (acquire_start s t l0)) (snd (acquire_start s t l0)).
 Proof.
   intros I. unfold acquire_start. destruct (lkind_ (getl s l0)) eqn:Ek.
   - apply nov_acq_p_start; [now apply QD_of_Inv|now apply Inv_bound].
   - destruct (benign_acquire_a_start s l0 I Ek) as [B _]. now apply nov_benign.
 Qed.
 
-Lemma release_pre l s t l0 : Inv s -> pre l s (fst (release s t l0)).
+Lemma release_pre l s t l0 : Inv s -> pre l t s (fst (release s t l0)).
 Proof.
   intros I. unfold release. destruct (lkind_ (getl s l0)) eqn:Ek.
   - apply pre_release_p. now apply QD_of_Inv.
-  - apply both_benign; auto. now apply benign_release_a.
+  - apply both_pre, both_benign; auto. now apply benign_release_a.
 Qed.
 
 Lemma reacquire_nov l s t c pc err body :
-  Inv s -> nov l s (fst (reacquire s t c pc err body)) (snd (reacquire s t c pc err body)).
+  Inv s -> nov l t s (fst (reacquire s t c pc err body)) (snd (reacquire s t c pc err body)).
 Proof.
   intros I. unfold reacquire. pose proof (acquire_start_nov l s t (clock (getc s c)) I) as N.
   destruct (acquire_start s t (clock (getc s c))) as [s1 r]. cbn [fst snd] in *.
@@ -43,7 +46,7 @@ Qed.
 
 Lemma reacq_after_nov l s t c err body :
   Inv s -> t < length (tasks s) ->
-  nov l s (fst (reacq_after s t c err body)) (snd (reacq_after s t c err body)).
+  nov l t s (fst (reacq_after s t c err body)) (snd (reacq_after s t c err body)).
 Proof.
   intros I Ht. unfold reacq_after.
   pose proof (reacquire_nov l s t c true err body I) as N.
@@ -59,7 +62,7 @@ Qed.
 (* ------------------------------------------------------------ lib_call *)
 Theorem lib_call_nov l t op s :
   Inv s -> op_safe s op -> (needs_task op = true -> t < length (tasks s)) ->
-  nov l s (fst (lib_call t op s)) (snd (lib_call t op s)).
+  nov l t s (fst (lib_call t op s)) (snd (lib_call t op s)).
 Proof.
   intros I Hs Hn. destruct op; cbn [lib_call].
   - (* OLog *) apply nov_both, both_same; reflexivity.
@@ -72,7 +75,7 @@ Proof.
     assert (E2 : locks s2 = locks s1 /\ futs s2 = futs s1).
     { unfold call_at in Ec. inversion Ec. split; reflexivity. }
     destruct E2 as [El2 Ef2].
-    eapply both_trans; [apply both_same; [unfold getl; now rewrite El2|exact Ef2]|].
+    eapply both_trans; [apply both_same; [unfold getl; now rewrite El2|unfold getl; now rewrite El2|exact Ef2]|].
     apply both_setf_flag. reflexivity.
   - (* ONewFut *) cbn [fst snd]. apply nov_both, both_new_future.
   - (* OAwaitFut *)
@@ -122,8 +125,8 @@ Proof.
       pose proof (release_pre l s1 t (clock (getc s c)) I1) as P2.
       destruct (release_facts s1 t (clock (getc s c)) I1) as (E2 & _).
       destruct (release s1 t (clock (getc s c))) as [s2 rr]. cbn [fst snd] in *.
-      assert (P02 : pre l s s2).
-      { eapply pre_trans; [|exact P2]. apply both_new_future. }
+      assert (P02 : pre l t s s2).
+      { eapply pre_trans; [|exact P2]. apply both_pre, both_new_future. }
       destruct rr as [v|e].
       * cbn [fst snd]. unfold nov. cbn [lres_done]. set (s3 := setc s2 c _).
         eapply pp_both_r; [apply pp_pre; exact P02|].
@@ -197,7 +200,7 @@ Qed.
 (* ------------------------------------------------------------ frame_resume *)
 Theorem frame_resume_nov l t fr inp s :
   Inv s -> t < length (tasks s) -> frame_ok s fr ->
-  nov l s (fst (frame_resume t fr inp s)) (snd (frame_resume t fr inp s)).
+  nov l t s (fst (frame_resume t fr inp s)) (snd (frame_resume t fr inp s)).
 Proof.
   intros I Ht Hok. destruct fr; cbn [frame_resume].
   - (* InSleep0 *) apply nov_both, both_refl.
@@ -227,8 +230,8 @@ Proof.
     unfold reacq_after in N.
     destruct (reacquire s1 t c true None _) as [s2 r]. destruct r as [rep|y frs].
     + destruct (cond_p_after s2 c rep) as [s3 rep']. cbn [fst snd] in *.
-      eapply nov_pre_l; [apply both_benign; eauto|exact N].
-    + cbn [fst snd] in *. eapply nov_pre_l; [apply both_benign; eauto|exact N].
+      eapply nov_pre_l; [apply both_pre, both_benign; eauto|exact N].
+    + cbn [fst snd] in *. eapply nov_pre_l; [apply both_pre, both_benign; eauto|exact N].
   - (* InReleasedP *)
     destruct inp as [v|e].
     + pose proof (benign_cond_p_after s c (match err with Some e => RExc e | None => body end) I) as B.
@@ -248,7 +251,7 @@ Proof.
       - intros g Hg. cbn in Hg. apply filter_In in Hg as [Hg _]. now left.
       - intros H. exact H. }
     pose proof (Inv_benign s s1 B1 I) as I1.
-    eapply nov_pre_l; [apply both_benign; eauto|]. now apply reacquire_nov.
+    eapply nov_pre_l; [apply both_pre, both_benign; eauto|]. now apply reacquire_nov.
   - (* InReacquireI *)
     destruct inp as [v|e]; [apply nov_both, both_refl|].
     destruct (is_cancel e); [now apply reacquire_nov|apply nov_both, both_refl].
@@ -269,13 +272,13 @@ Proof.
 Qed.
 
 (* ------------------------------------------------------------ resume_stack *)
-Lemma nov_susp_app l s s' y frs rest : nov l s s' (LSusp y frs) -> nov l s s' (LSusp y (frs ++ rest)).
+Lemma nov_susp_app l t s s' y frs rest : nov l t s s' (LSusp y frs) -> nov l t s s' (LSusp y (frs ++ rest)).
 Proof. auto. Qed.
 
 Lemma resume_noacq_nov l frs : forall t inp s,
   Inv s -> t < length (tasks s) -> no_acq frs ->
   (forall l0 f, In (InAcquireA l0 f) frs -> lkind_ (getl s l0) = LPlain) ->
-  nov l s (fst (resume_stack t frs inp s)) (snd (resume_stack t frs inp s)).
+  nov l t s (fst (resume_stack t frs inp s)) (snd (resume_stack t frs inp s)).
 Proof.
   induction frs as [|fr rest IH]; intros t inp s I Ht Hn Hk; cbn [resume_stack].
   - cbn [fst snd]. apply nov_both, both_refl.
@@ -293,12 +296,19 @@ Proof.
     + cbn [fst snd]. exact N.
 Qed.
 
+(* a frame stack that contains a suspended PriorityLock.acquire() *)
+Definition acqfr (frs : list frame) : Prop := exists l0 f had, In (InAcquireP l0 f had) frs.
+
+(* phase 0 (possible only when the stack holds a suspended acquire), then phases 1 and 2 *)
+Definition nov3 (l t : nat) (frs : list frame) (s s' : st) (r : lres) : Prop :=
+  exists m0, (prc l s m0 \/ (acqfr frs /\ rek l s m0)) /\ nov l t m0 s' r.
+
 Theorem resume_stack_nov l frs t inp s :
   Inv s -> t < length (tasks s) -> pend s frs ->
-  nov l s (fst (resume_stack t frs inp s)) (snd (resume_stack t frs inp s)).
+  nov3 l t frs s (fst (resume_stack t frs inp s)) (snd (resume_stack t frs inp s)).
 Proof.
   intros I Ht (Hs & Ha & Hk). destruct Hs as [Hn|(l0 & f & had & rest & -> & Hn)].
-  - now apply resume_noacq_nov.
+  - exists s. split; [left; apply prc_refl|]. now apply resume_noacq_nov.
   - cbn [resume_stack].
     destruct (infut_step t f inp s) as (rep & Er & B & Hw & Hfr).
     destruct (frame_resume t (InFut f) inp s) as [s1 r]. cbn [fst snd] in *. subst r.
@@ -309,28 +319,32 @@ Proof.
     assert (Hnf1 : no_frame s1 f) by (intros t0 l1 had0; rewrite Hfr; apply Hnf).
     cbn [frame_resume].
     destruct (lstep_acquire_p_finish s1 t l0 f had rep I1 Ht1 Hf1 Hnf1 Hw) as (L & _ & _).
-    pose proof (pre_acq_finish l s1 t l0 f had rep (QD_of_Inv s1 I1)) as P2.
+    pose proof (acq_finish_lead l s1 t l0 f had rep (QD_of_Inv s1 I1)) as P2.
     destruct (acquire_p_finish s1 t l0 f had rep) as [s2 r2]. cbn [fst snd] in *.
     pose proof (ls_inv L) as I2.
     assert (Ht2 : t < length (tasks s2)) by (rewrite (ls_ntasks L); exact Ht1).
     assert (Hk2 : forall l1 f0, In (InAcquireA l1 f0) rest -> lkind_ (getl s2 l1) = LPlain).
     { intros l1 f0 Hin. rewrite (ls_kind L), (benign_kind s s1 l1 B). apply (Hk l1 f0). right. now right. }
-    eapply nov_pre_l; [apply both_benign; eauto|]. eapply nov_pre_l; [exact P2|].
-    now apply resume_noacq_nov.
+    exists s2. split.
+    + destruct P2 as [P2|R2].
+      * left. eapply prc_trans; [apply both_prc, both_benign; eauto|exact P2].
+      * right. split; [exists l0, f, had; right; now left|].
+        eapply rek_trans; [apply rek_benign; eauto|exact R2].
+    + now apply resume_noacq_nov.
 Qed.
 
 (* ------------------------------------------------------------ user code *)
-Definition onov (l : nat) (s s' : st) (o : outcome) : Prop :=
-  match o with ODone _ => pre l s s' | OYield _ _ _ => pp l s s' end.
+Definition onov (l t : nat) (s s' : st) (o : outcome) : Prop :=
+  match o with ODone _ => pre l t s s' | OYield _ _ _ => pp l t s s' end.
 
-Lemma onov_pre_l l s1 s2 s3 o : pre l s1 s2 -> onov l s2 s3 o -> onov l s1 s3 o.
+Lemma onov_pre_l l t s1 s2 s3 o : pre l t s1 s2 -> onov l t s2 s3 o -> onov l t s1 s3 o.
 Proof. intros A B. destruct o; cbn in *; [eapply pre_trans|eapply pp_pre_l]; eauto. Qed.
-Lemma onov_pp l s s' o : onov l s s' o -> pp l s s'.
+Lemma onov_pp l t s s' o : onov l t s s' o -> pp l t s s'.
 Proof. destruct o; cbn; auto. apply pp_pre. Qed.
 
 Theorem exec_nov l c : forall t s,
   Inv s -> t < length (tasks s) -> exec_ok t c s -> exec_ne t c s ->
-  onov l s (fst (exec t c s)) (snd (exec t c s)).
+  onov l t s (fst (exec t c s)) (snd (exec t c s)).
 Proof.
   induction c as [v|e|op k IHk|how child IHc k IHk]; intros t s I Ht Hok Hne.
   - cbn. apply pre_refl.
@@ -343,10 +357,10 @@ Proof.
       apply IHk; auto; [apply (ext_inv _ _ E)|pose proof (ext_tasks _ _ E); lia].
     + cbn [fst snd onov]. exact N.
   - assert (Hsp : forall how', let s1 := fst (spawn_task s how' child) in
-              Inv s1 /\ t < length (tasks s1) /\ pre l s s1).
+              Inv s1 /\ t < length (tasks s1) /\ pre l t s s1).
     { intros how'. cbv zeta. pose proof (benign_spawn_task s how' child I) as B.
       split; [eapply Inv_benign; eauto|]. split; [pose proof (benign_tasks _ _ B); lia|].
-      now apply both_benign. }
+      now apply both_pre, both_benign. }
     destruct how.
     + cbn [exec exec_ok exec_ne] in *. destruct (Hsp SPlain) as (I1 & Ht1 & P1).
       destruct (spawn_task s SPlain child) as [s1 t']. cbn [fst] in *.
@@ -429,16 +443,33 @@ Proof.
 Qed.
 
 (* ------------------------------------------------------------ step_task *)
-Lemma step_tail_pp l t s0 s3 o :
-  pp l s0 s3 -> Inv s3 -> t < length (tasks s3) -> (forall y frs k, o = OYield y frs k -> pend s3 frs) ->
-  pp l s0 ((finish_step t s3 o) <| current := None |>).
+(* one step of task t whose stored frames are frs: phase 0 (only if frs holds a suspended
+   acquire), then phases 1 and 2 *)
+Definition st3 (l t : nat) (frs : list frame) (s s' : st) : Prop :=
+  exists m0, (prc l s m0 \/ (acqfr frs /\ rek l s m0)) /\ pp l t m0 s'.
+
+Lemma st3_pp l t frs s s' : pp l t s s' -> st3 l t frs s s'.
+Proof. intros H. exists s. split; auto. left. apply prc_refl. Qed.
+Lemma st3_both_r l t frs s1 s2 s3 : st3 l t frs s1 s2 -> both l s2 s3 -> st3 l t frs s1 s3.
+Proof. intros (m0 & A & B) C. exists m0. split; auto. eapply pp_both_r; eauto. Qed.
+Lemma st3_quiet_l l t frs s1 s2 s3 :
+  prc l s1 s2 -> rek l s1 s2 -> st3 l t frs s2 s3 -> st3 l t frs s1 s3.
 Proof.
-  intros E I3 Ht P. pose proof (finish_step_both l t s3 o I3 Ht P) as B.
-  eapply pp_both_r; [exact E|]. eapply both_trans; [exact B|]. apply both_same; reflexivity.
+  intros P R (m0 & [A|[F A]] & B); exists m0; (split; [|exact B]).
+  - left. eapply prc_trans; eauto.
+  - right. split; auto. eapply rek_trans; eauto.
 Qed.
 
-Lemma resume_then_exec_pp l t frs inp s0 s k :
-  pp l s0 s -> (pre l s0 s) -> Inv s -> t < length (tasks s) -> pend s frs ->
+Lemma step_tail_pp l t frs s0 s3 o :
+  st3 l t frs s0 s3 -> Inv s3 -> t < length (tasks s3) -> (forall y frs k, o = OYield y frs k -> pend s3 frs) ->
+  st3 l t frs s0 ((finish_step t s3 o) <| current := None |>).
+Proof.
+  intros E I3 Ht P. pose proof (finish_step_both l t s3 o I3 Ht P) as B.
+  eapply st3_both_r; [exact E|]. eapply both_trans; [exact B|]. apply both_same; reflexivity.
+Qed.
+
+Lemma resume_then_exec_pp l t frs inp s k :
+  Inv s -> t < length (tasks s) -> pend s frs ->
   (let '(s1, r) := resume_stack t frs inp s in
    match r with LDone rep => exec_ok t (k rep) s1 | LSusp _ _ => True end) ->
   (let '(s1, r) := resume_stack t frs inp s in
@@ -447,27 +478,27 @@ Lemma resume_then_exec_pp l t frs inp s0 s k :
                    match r with
                    | LDone rep => exec t (k rep) s1
                    | LSusp y frs' => (s1, OYield y frs' k) end) in
-  pp l s0 s3.
+  st3 l t frs s s3.
 Proof.
-  intros _ E I Ht P Hok Hne.
+  intros I Ht P Hok Hne.
   destruct (resume_stack_ext frs t inp s I Ht P) as [E1 _].
-  pose proof (resume_stack_nov l frs t inp s I Ht P) as N1.
+  pose proof (resume_stack_nov l frs t inp s I Ht P) as (m0 & L0 & N1).
   destruct (resume_stack t frs inp s) as [s1 r]. cbn [fst snd] in *.
   assert (Ht1 : t < length (tasks s1)) by (pose proof (ext_tasks _ _ E1); lia).
   destruct r as [rep|y frs1].
   - pose proof (exec_nov l (k rep) t s1 (ext_inv _ _ E1) Ht1 Hok Hne) as N2.
     destruct (exec t (k rep) s1) as [s3 o]. cbn [fst snd] in *.
-    eapply pp_pre_l; [exact E|]. eapply pp_pre_l; [exact N1|]. eapply onov_pp; eauto.
-  - eapply pp_pre_l; [exact E|]. exact N1.
+    exists m0. split; [exact L0|]. eapply pp_pre_l; [exact N1|]. eapply onov_pp; eauto.
+  - exists m0. split; [exact L0|]. exact N1.
 Qed.
 
 Theorem step_task_pp l t exc s :
-  Inv s -> t < length (tasks s) -> step_ok t exc s -> step_ne t exc s -> pp l s (step_task t exc s).
+  Inv s -> t < length (tasks s) -> step_ok t exc s -> step_ne t exc s ->
+  st3 l t (tframes s t) s (step_task t exc s).
 Proof.
   intros I Ht Hok Hne.
-  pose proof (step_task_ext t exc s I Ht Hok) as EXT. clear EXT.
   unfold step_task, step_ok, step_ne in *.
-  destruct (tdone s t); [apply pp_both, both_same; reflexivity|].
+  destruct (tdone s t); [apply st3_pp, pp_both, both_same; reflexivity|].
   set (exc' := if tmustc (gett s t)
                then match exc with
                     | Some e => if is_cancel e then Some e else Some ECancelled
@@ -479,7 +510,10 @@ Proof.
   { apply benign_trans with (s2 := s1); [|apply chg_core_eq; reflexivity].
     apply chg_sett; [reflexivity|reflexivity|reflexivity|right; reflexivity]. }
   pose proof (ext_benign _ _ I B2) as E2. pose proof (ext_inv _ _ E2) as I2.
-  assert (P02 : pre l s s2) by (apply both_same; reflexivity).
+  assert (B02 : both l s s2) by (apply both_same; reflexivity).
+  assert (P02 : pre l t s s2) by (apply both_pre, B02).
+  assert (C02 : prc l s s2) by (apply both_prc, B02).
+  assert (R02 : rek l s s2) by (apply rek_same; reflexivity).
   assert (Ht2 : t < length (tasks s2)) by (pose proof (ext_tasks _ _ E2); lia).
   assert (Hfr2 : forall t0, tframes s2 t0 = if Nat.eqb t t0 then [] else tframes s t0).
   { intros t0. unfold tframes. change (gett s2 t0) with (gett s1 t0). unfold s1. rewrite gett_sett.
@@ -490,81 +524,121 @@ Proof.
       intros t0 l1 had0 H0. rewrite Hfr2 in H0. destruct (Nat.eqb t t0) eqn:E; [destruct H0|].
       apply Nat.eqb_neq in E. apply E. eapply (iF3 I); eauto.
     - intros l0 f Hin. apply (iF4 I _ _ _ Hin). }
-  unfold tframes in P2.
-  destruct (tcont_ (gett s t)) as [c|frs k|y frs k| |]; cbn [frames_of] in P2.
+  unfold tframes in P2 |- *.
+  destruct (tcont_ (gett s t)) as [c|frs k|y frs k| |]; cbn [frames_of] in P2 |- *.
   - (* TNew *)
     destruct exc' as [e|].
-    + apply step_tail_pp; auto; [now apply pp_pre|intros; discriminate].
+    + apply step_tail_pp; auto; [now apply st3_pp, pp_pre|intros; discriminate].
     + destruct (exec_ext c t s2 I2 Ht2 Hok) as [E3 P3].
       pose proof (exec_nov l c t s2 I2 Ht2 Hok Hne) as N3.
       destruct (exec t c s2) as [s3 o]. cbn [fst snd] in *.
       apply step_tail_pp; [|apply (ext_inv _ _ E3)|pose proof (ext_tasks _ _ E3); lia|exact P3].
-      eapply pp_pre_l; [exact P02|]. eapply onov_pp; eauto.
+      apply st3_pp. eapply pp_pre_l; [exact P02|]. eapply onov_pp; eauto.
   - (* TSusp *)
     pose proof (resume_then_exec t frs (match exc' with None => RVal 0 | Some e => RExc e end) s s2 k E2 Ht2 P2 Hok) as H.
-    pose proof (resume_then_exec_pp l t frs (match exc' with None => RVal 0 | Some e => RExc e end) s s2 k
-                  (pp_pre _ _ _ P02) P02 I2 Ht2 P2 Hok Hne) as HW.
+    pose proof (resume_then_exec_pp l t frs (match exc' with None => RVal 0 | Some e => RExc e end) s2 k
+                  I2 Ht2 P2 Hok Hne) as HW.
     destruct (let '(s1, r) := resume_stack t frs _ s2 in _) as [s3 o].
-    destruct H as (E3 & Ht3 & P3). apply step_tail_pp; auto. apply (ext_inv _ _ E3).
+    destruct H as (E3 & Ht3 & P3). apply step_tail_pp; auto; [|apply (ext_inv _ _ E3)].
+    eapply st3_quiet_l; eauto.
   - (* TEager *)
     destruct exc' as [e|].
     + pose proof (resume_then_exec t frs (RExc e) s s2 k E2 Ht2 P2 Hok) as H.
-      pose proof (resume_then_exec_pp l t frs (RExc e) s s2 k (pp_pre _ _ _ P02) P02 I2 Ht2 P2 Hok Hne) as HW.
+      pose proof (resume_then_exec_pp l t frs (RExc e) s2 k I2 Ht2 P2 Hok Hne) as HW.
       destruct (let '(s1, r) := resume_stack t frs _ s2 in _) as [s3 o].
-      destruct H as (E3 & Ht3 & P3). apply step_tail_pp; auto. apply (ext_inv _ _ E3).
+      destruct H as (E3 & Ht3 & P3). apply step_tail_pp; auto; [|apply (ext_inv _ _ E3)].
+      eapply st3_quiet_l; eauto.
     + set (s3 := match y with YFut f => setf s2 f (getf s2 f <| fblock := true |>) | YNone => s2 end).
       assert (B3 : benign s2 s3).
       { unfold s3. destruct y; [apply benign_refl|apply chg_setf_flag; reflexivity]. }
       apply step_tail_pp.
-      * eapply pp_pre_l; [exact P02|]. apply pp_both. now apply both_benign.
+      * apply st3_pp. eapply pp_pre_l; [exact P02|]. apply pp_both. now apply both_benign.
       * eapply Inv_benign; eauto.
       * pose proof (benign_tasks _ _ B3). lia.
       * intros y0 frs0 k0 H. inversion H; subst. eapply pend_benign; eauto.
-  - (* TRun *) apply step_tail_pp; auto; [now apply pp_pre|intros; discriminate].
-  - (* TFin *) apply step_tail_pp; auto; [now apply pp_pre|intros; discriminate].
+  - (* TRun *) apply step_tail_pp; auto; [now apply st3_pp, pp_pre|intros; discriminate].
+  - (* TFin *) apply step_tail_pp; auto; [now apply st3_pp, pp_pre|intros; discriminate].
 Qed.
 
 (* ------------------------------------------------------------ the loop *)
+(* one scheduler action, seen from lock l: phase 0 is possible only in a step of a task that was
+   suspended in PriorityLock.acquire() when the action began *)
+Definition pp3 (l : nat) (s s' : st) : Prop :=
+  exists m, post l m s' /\
+    (prc l s m \/ exists t m0, acqfr (tframes s t) /\ rek l s m0 /\ pre l t m0 m).
+
+Lemma st3_pp3 l t s s' : st3 l t (tframes s t) s s' -> pp3 l s s'.
+Proof.
+  intros (m0 & A & m & B & C). exists m. split; auto. destruct A as [A|[F A]].
+  - left. eapply prc_trans; [exact A|]. apply (pre_prc _ _ _ _ B).
+  - right. exists t, m0. auto.
+Qed.
+Lemma pp_pp3 l t s s' : pp l t s s' -> pp3 l s s'.
+Proof. intros (m & A & B). exists m. split; auto. left. apply (pre_prc _ _ _ _ A). Qed.
+Lemma both_pp3 l s s' : both l s s' -> pp3 l s s'.
+Proof. intros B. apply (pp_pp3 l 0), pp_both, B. Qed.
+Lemma pp3_quiet_l l s1 s2 s3 :
+  prc l s1 s2 -> rek l s1 s2 -> (forall t, acqfr (tframes s2 t) -> acqfr (tframes s1 t)) ->
+  pp3 l s2 s3 -> pp3 l s1 s3.
+Proof.
+  intros P R F (m & A & [B|(t & m0 & F2 & B & C)]); exists m; (split; [exact A|]).
+  - left. eapply prc_trans; eauto.
+  - right. exists t, m0. split; [now apply F|]. split; auto. eapply rek_trans; eauto.
+Qed.
+
+Lemma benign_acqfr s s' t : benign s s' -> t < length (tasks s) -> acqfr (tframes s' t) -> acqfr (tframes s t).
+Proof.
+  intros B Ht F. destruct (c_task B t Ht) as (_ & _ & _ & [E|E]); rewrite E in F; auto.
+  destruct F as (l0 & f & had & []).
+Qed.
+
 Theorem wakeup_pp l t f s :
-  Inv s -> t < length (tasks s) -> wakeup_ok t f s -> wakeup_ne t f s -> pp l s (wakeup t f s).
+  Inv s -> t < length (tasks s) -> wakeup_ok t f s -> wakeup_ne t f s -> pp3 l s (wakeup t f s).
 Proof.
   intros I Ht Hok Hne. unfold wakeup, wakeup_ok, wakeup_ne in *. destruct (fstate_ (getf s f)).
-  - now apply step_task_pp.
-  - now apply step_task_pp.
-  - now apply step_task_pp.
+  - now apply (st3_pp3 l t), step_task_pp.
+  - now apply (st3_pp3 l t), step_task_pp.
+  - now apply (st3_pp3 l t), step_task_pp.
   - pose proof (chg_fut_result (notlf s) s f) as B. destruct (fut_result s f) as [s' r]. cbn [fst] in B.
-    eapply pp_both_l; [apply both_benign; eauto|]. apply step_task_pp; auto.
-    + eapply Inv_benign; eauto.
-    + pose proof (benign_tasks _ _ B). lia.
+    assert (Ht' : t < length (tasks s')) by (pose proof (benign_tasks _ _ B); lia).
+    apply pp3_quiet_l with (s2 := s').
+    + apply both_prc, both_benign; auto.
+    + apply rek_benign; auto.
+    + intros t0 F. destruct (Nat.lt_ge_cases t0 (length (tasks s))) as [H0|H0].
+      * eapply benign_acqfr; eauto.
+      * exfalso. destruct (c_newtask B t0 H0) as (_ & E & _). rewrite E in F.
+        destruct F as (l0 & f0 & had & []).
+    + apply (st3_pp3 l t), step_task_pp; auto. eapply Inv_benign; eauto.
 Qed.
 
 Theorem run_callback_pp l c s :
-  Inv s -> In c (hcbs s) -> run_callback_ok c s -> run_callback_ne c s -> pp l s (run_callback c s).
+  Inv s -> In c (hcbs s) -> run_callback_ok c s -> run_callback_ne c s -> pp3 l s (run_callback c s).
 Proof.
   intros I Hin Hok Hne. pose proof (iE1 I _ Hin) as Hc.
   destruct c; cbn [run_callback run_callback_ok run_callback_ne cb_task_ok] in *.
-  - now apply step_task_pp.
+  - now apply (st3_pp3 l t), step_task_pp.
   - now apply wakeup_pp.
   - pose proof (benign_task_reinsert s t p) as B. destruct (task_reinsert s t p) as [s' r]. cbn [fst] in B.
-    destruct r; [now apply pp_both, both_benign|].
-    apply pp_both. eapply both_trans; [apply both_benign; eauto|]. apply both_same; reflexivity.
-  - apply pp_both, both_same; reflexivity.
-  - apply pp_both, both_benign; auto. apply benign_fut_finish; auto. right.
+    destruct r; [now apply both_pp3, both_benign|].
+    apply both_pp3. eapply both_trans; [apply both_benign; eauto|]. apply both_same; reflexivity.
+  - apply both_pp3, both_same; reflexivity.
+  - apply both_pp3, both_benign; auto. apply benign_fut_finish; auto. right.
     intros Hl. apply (iD2 I _ Hl). eapply foreign_timer; eauto.
-  - apply pp_both, both_benign; auto. now apply benign_new_task.
-  - apply pp_both. unfold queue_iterated.
+  - apply both_pp3, both_benign; auto. now apply benign_new_task.
+  - apply both_pp3. unfold queue_iterated.
     destruct (ready (addlog s (query_code s))); apply both_same; reflexivity.
-  - apply pp_both, both_benign; auto. now apply benign_cancel_task.
+  - apply both_pp3, both_benign; auto. now apply benign_cancel_task.
 Qed.
 
-Theorem run_one_pp l s : Inv s -> run_one_ok s -> run_one_ne s -> pp l s (run_one s).
+Theorem run_one_pp l s : Inv s -> run_one_ok s -> run_one_ne s -> pp3 l s (run_one s).
 Proof.
   intros I Hok Hne. unfold run_one, run_one_ok, run_one_ne in *.
-  destruct (rq_popleft (ready s)) as [[h r]|]; [|apply pp_refl].
+  destruct (rq_popleft (ready s)) as [[h r]|]; [|apply both_pp3, both_refl].
   set (s1 := s <| ready := r |>) in *.
   assert (B1 : benign s s1) by (apply chg_core_eq; reflexivity).
-  destruct (hcancelled (geth s1 h)) eqn:Ec; [apply pp_both, both_same; reflexivity|].
-  apply pp_both_l with (s2 := s1); [apply both_same; reflexivity|].
+  destruct (hcancelled (geth s1 h)) eqn:Ec; [apply both_pp3, both_same; reflexivity|].
+  apply pp3_quiet_l with (s2 := s1);
+    [apply both_prc, both_same; reflexivity|apply rek_same; reflexivity|intros t F; exact F|].
   apply run_callback_pp; auto.
   - eapply Inv_benign; eauto.
   - change (hcbs s1) with (hcbs s). change (geth s1 h) with (geth s h) in *.
@@ -573,12 +647,13 @@ Proof.
     + unfold geth in Ec. rewrite nth_overflow in Ec by auto. discriminate.
 Qed.
 
-Theorem do_action_pp l s a : Inv s -> action_ok s a -> action_ne s a -> pp l s (do_action s a).
+Theorem do_action_pp l s a : Inv s -> action_ok s a -> action_ne s a -> pp3 l s (do_action s a).
 Proof.
   intros I Hok Hne. destruct a; cbn [do_action action_ok action_ne] in *.
   - now apply run_one_pp.
-  - apply pp_both, both_benign; auto. apply benign_begin_iteration.
-  - apply pp_both, both_same; reflexivity.
-  - apply pp_both, both_benign; auto. now apply benign_spawn_task.
-  - destruct Hok as [Hs Hn]. eapply nov_pp. apply (lib_call_nov l 0 op s I Hs). intros H. congruence.
+  - apply both_pp3, both_benign; auto. apply benign_begin_iteration.
+  - apply both_pp3, both_same; reflexivity.
+  - apply both_pp3, both_benign; auto. now apply benign_spawn_task.
+  - destruct Hok as [Hs Hn]. apply (pp_pp3 l 0). eapply nov_pp. apply (lib_call_nov l 0 op s I Hs).
+    intros H. congruence.
 Qed.
